@@ -3,7 +3,12 @@
 (*   MC_TermCache.cfg        cell-size / ratio operations, 3 sizes x 2 pixel sizes, all flags   *)
 (*   MC_TermCache_memo.cfg   the memoized query functions with query enabling / disabling       *)
 (*   MC_TermCache_cell_dump.cfg / MC_TermCache_memo_dump.cfg   quick models with the edge dump  *)
+(*   MC_TermCache_all.cfg    both groups together on a smaller terminal family (thorough)       *)
 (*   MC_TermCache_var.cfg    seeded regressions of the model (VARIANT from the environment)     *)
+(* The invariants read `out` (the value just returned).  They are decided by the configurations *)
+(* WITHOUT a VIEW (cell, memo, all, var), where the last operation is part of the state         *)
+(* identity; the *_dump configurations use VIEW View only to print each edge of the             *)
+(* cache-level state graph once for the replay.                                                 *)
 EXTENDS TermCache, Json, IOUtils
 
 S3 == {<<4, 2>>, <<4, 3>>, <<6, 3>>}
